@@ -59,23 +59,28 @@ def main():
     out["confirmed"] = confirmed
     out["checks"] = {}
     if confirmed and "--no-checks" not in sys.argv:
-        rc, o, _ = run(["git", "-C", "/repo", "status", "--porcelain"], "/repo")
-        if o.strip():
-            out["error"] = "/repo is not clean"
-        else:
-            rc, o, _ = run(["git", "-C", "/repo", "apply", os.path.join(seed, "patch.diff")], "/repo")
-            try:
-                for c in checks:
-                    if c.startswith("--"):
-                        continue
-                    rc, o, secs = run(["./check", c, "quick"], "/verif", timeout=2400)
-                    viol = [l for l in o.splitlines() if l.startswith("VIOLATION")]
-                    detail = [l.strip() for l in o.splitlines() if l.strip().startswith("assertion:")][:3]
-                    infra = [l for l in o.splitlines() if l.startswith("INFRA")][:3]
-                    out["checks"][c] = {"exit": rc, "violations": len(viol), "seconds": round(secs, 1), "detail": [d[:300] for d in detail], "infra": [i[:300] for i in infra]}
-            finally:
-                run(["git", "-C", "/repo", "checkout", "--", "."], "/repo")
-                run(["git", "-C", "/repo", "clean", "-fdq"], "/repo")
+        # the checks run against a second scratch worktree with the patch applied (VERIF_REPO), /repo is not touched
+        wt2 = "/tmp/seedrepo_%d" % os.getpid()
+        run(["git", "-C", "/repo", "worktree", "add", "-q", "--detach", wt2, "HEAD"], "/repo")
+        try:
+            rc, o, _ = run(["git", "apply", os.path.join(seed, "patch.diff")], wt2)
+            env2 = dict(ENV, VERIF_REPO=wt2)
+            for c in checks:
+                if c.startswith("--"):
+                    continue
+                t0 = time.time()
+                try:
+                    p = subprocess.run(["./check", c, "quick"], cwd="/verif", env=env2, capture_output=True, text=True, timeout=3000)
+                    rc, o = p.returncode, p.stdout + p.stderr
+                except subprocess.TimeoutExpired as e:
+                    rc, o = 124, (e.stdout or "") + "TIMEOUT"
+                secs = time.time() - t0
+                viol = [l for l in o.splitlines() if l.startswith("VIOLATION")]
+                detail = [l.strip() for l in o.splitlines() if l.strip().startswith("assertion:")][:3]
+                infra = [l for l in o.splitlines() if l.startswith("INFRA")][:3]
+                out["checks"][c] = {"exit": rc, "violations": len(viol), "seconds": round(secs, 1), "detail": [d[:300] for d in detail], "infra": [i[:300] for i in infra]}
+        finally:
+            run(["git", "-C", "/repo", "worktree", "remove", "--force", wt2], "/repo")
     print(json.dumps(out, indent=1))
 
 
